@@ -19,6 +19,7 @@ CONSTANTS
   BUG_TimerRevive = FALSE
   BUG_AdapterRawClose = FALSE
   BUG_EarlyDeregister = FALSE
+  BUG_CloseKeepsFd = FALSE
   BUG_ForeignDeregister = FALSE
   BUG_WsResetLeak = FALSE
   BUG_SocketNonblockLeak = TRUE
